@@ -344,3 +344,57 @@ Theorem C03_noitem_termination_demo :
   exists n, c_mode (run P n (start h s1)) = MDone (Ok (VTuple [VTuple [VInt 7; VInt 1]; VInt 9; VInt 42])).
 Proof. exact c03l_demo_terminates. Qed.
 Print Assumptions C03_noitem_termination_demo.
+
+(* ==== towards general termination (proofs/MachineC03L.v, part 4) ==== *)
+
+(* relative bound on the number of flushes: while the ids of the futures created stay below N, at most N flush
+   points (a pass ended, the awaited task is uncomputed) occur among the first n configurations *)
+Theorem C03_flushes_bounded_tree : forall P p N n,
+  pointwise P -> tree p ->
+  let h := fst (create [] (FTask p) (st0 P)) in
+  let s1 := snd (create [] (FTask p) (st0 P)) in
+  (forall n, no_unwind P n (start h s1)) ->
+  (forall k, (k <= n)%nat -> (top_next (c_st (run P k (start h s1))) <= Z.of_nat N)%Z) ->
+  (length (filter (fun k => match c_mode (run P k (start h s1)) with
+                            | MAfterExec => negb (computed h (c_st (run P k (start h s1))))
+                            | _ => false end) (seq 0 n)) <= N)%nat.
+Proof. exact flushes_bounded_tree. Qed.
+Print Assumptions C03_flushes_bounded_tree.
+
+(* TERMINATION REDUCED to the two missing facts: if every pass that starts with the awaited task uncomputed ends
+   and the number of futures ever created is bounded, the computation is done with the sequential outcome *)
+Theorem C03_termination_reduced_tree : forall P p N,
+  pointwise P -> tree p ->
+  let h := fst (create [] (FTask p) (st0 P)) in
+  let s1 := snd (create [] (FTask p) (st0 P)) in
+  (forall n, no_unwind P n (start h s1)) ->
+  (forall n, c_mode (run P n (start h s1)) = MWaitHead -> computed h (c_st (run P n (start h s1))) = false ->
+     exists m, c_mode (run P (n + m) (start h s1)) = MAfterExec) ->
+  (forall n, (top_next (c_st (run P n (start h s1))) <= Z.of_nat N)%Z) ->
+  exists n, c_mode (run P n (start h s1)) = MDone (eval p).
+Proof. exact termination_reduced_tree. Qed.
+Print Assumptions C03_termination_reduced_tree.
+
+(* the next pass starts after a flush *)
+Theorem C03_next_pass_starts_tree : forall P p n,
+  pointwise P -> tree p ->
+  let h := fst (create [] (FTask p) (st0 P)) in
+  let s1 := snd (create [] (FTask p) (st0 P)) in
+  (forall n, no_unwind P n (start h s1)) ->
+  c_mode (run P n (start h s1)) = MWaitHead -> computed h (c_st (run P n (start h s1))) = false ->
+  run P (n + 1) (start h s1) = mkC MExecLoop [FExec 0; FWait h; FTop] (with_tasks (c_st (run P n (start h s1))) [h]).
+Proof. exact next_pass_starts_tree. Qed.
+Print Assumptions C03_next_pass_starts_tree.
+
+(* in ANY pass the top stack entry is popped after finitely many steps unless it is a first visit *)
+Theorem C03_top_entry_popped_unless_first_visit_tree : forall P p n s x ts,
+  pointwise P -> tree p ->
+  let h := fst (create [] (FTask p) (st0 P)) in
+  let s1 := snd (create [] (FTask p) (st0 P)) in
+  (forall n, no_unwind P n (start h s1)) ->
+  run P n (start h s1) = mkC MExecLoop [FExec 0; FWait h; FTop] s -> tasks s = x :: ts ->
+  (forall tk, get x s = Some (mkFut None (KTask tk)) -> is_blocked tk s = true -> tk_ds tk = true) ->
+  exists m s', run P (n + m) (start h s1) = mkC MExecLoop [FExec 0; FWait h; FTop] s' /\ tasks s' = ts /\
+    forall d, d <> x -> get d s <> None -> get d s' = get d s.
+Proof. exact top_entry_popped_unless_first_visit_tree. Qed.
+Print Assumptions C03_top_entry_popped_unless_first_visit_tree.
